@@ -836,12 +836,16 @@ def o12(h, st):
     h.done()
 
 
+from tverif.engine import repeatable
+repeatable((C, "Circuit.get_entangled_indices"), (C, "Circuit.split"), (C, "Circuit.depth"), (C, "Circuit.copy"), (C, "Circuit.inverse"), (C, "remove_small_rotations"),
+           (C, "remove_redundant_gates"), (C, "merge_rotations"), (C, "simplify"), (C, "stack"), (CL, "decompose_gate_to_cliffords"), (G, "Gate.inverse"))
+
 PROPERTY = {
     "level": "proof",
     "explanation": "S-level contracts on Gate.inverse/__eq__, Circuit.inverse/copy/+/*, remove_small_rotations, remove_redundant_gates, "
                    "merge_rotations, simplify, split, stack, trim_qubits, reindex_qubits and decompose_gate_to_cliffords: the real AST is executed "
                    "on every enumerated small circuit with all rotation angles symbolic; operator equalities are decided exactly (canonical "
-                   "normal form in Q(zeta_32)[cos,sin]) for every real angle; threshold / modulo conditions by z3 over the reals.",
+                   "normal form in Q(zeta_32)[cos,sin]) for every real angle; threshold / modulo conditions by z3 over the reals. Unbounded (modular, ghost sequences with callee contracts): Gate.inverse on every placement (P0, symbolic indices), Circuit.inverse (P1) and remove_small_rotations (P2) on circuits of ANY length. Bounded histories of read-only operations on one circuit object against fresh circuits (O12).",
     "bounds": {"quick": "circuits of <= 3 gates over 4-8 gate kinds on <= 4 qubits; every invertible gate name with 0-2 controls; k*pi/2 for k in [-6,8]",
                "thorough": "circuits of <= 3-4 gates over 6-13 gate kinds"},
     "assumptions": ["floating-point arithmetic treated as real arithmetic (round(x,7) modelled as a function with |round(x)-x| <= 5e-8)",
